@@ -196,6 +196,12 @@ func Ite(c bool, a, b sdkmath.Int) sdkmath.Int {
 	}
 	return b
 }
+func IteI64(c bool, a, b int64) int64 {
+	if c {
+		return a
+	}
+	return b
+}
 func IteDec(c bool, a, b sdkmath.LegacyDec) sdkmath.LegacyDec {
 	if c {
 		return a
